@@ -4,4 +4,4 @@ From GoPdf.Base Require Import WireAnchor.
 From GoPdf.C02 Require Import Obj Syntax Writer Stored.
 From GoPdf.C03 Require Import PSyntax Validate.
 Separate Extraction wire_anchor validate validate_strict stream_payload find_object
-  Writer.init Writer.run_trace fmt_obj fmt_sd_concrete id_cipher fenc_concrete deflate_stored.
+  Writer.init Writer.run_trace Writer.run_lenient fmt_obj fmt_sd_concrete id_cipher fenc_concrete deflate_stored.
